@@ -1,6 +1,7 @@
 // C16 harness: nitro::lang::hash overloads, tuple_operators mix-in, hash_wrapper
 #include <nitro/lang/hash.hpp>
 #include <nitro/lang/tuple_operators.hpp>
+#include <nitro/lang/unordered.hpp>
 #include <memory>
 #include <string>
 #include <tuple>
@@ -45,6 +46,11 @@ struct pval { int a; unsigned char b; long c; const char* s; unsigned sl; };
 unsigned k_ops(const struct pval* x, const struct pval* y);
 unsigned long k_hash_p(const struct pval* x);
 unsigned long k_hash_p_wrapper(const struct pval* x);
+// one object: built from x, hashed, then every member assigned from y, hashed again (the result) -- a hash is a function of the VALUE
+unsigned long k_hash_p_after_change(const struct pval* x, const struct pval* y, unsigned long* first);
+// the functors nitro::lang::unordered_set<P> / unordered_map<P,int> hand to the hash container: bit0 set::key_equal(x,y), bit1 map::key_equal(x,y)
+unsigned k_container_eq(const struct pval* x, const struct pval* y);
+unsigned long k_container_hash(const struct pval* x, unsigned map);
 unsigned long k_hash_t2(int a, int b);
 unsigned long k_hash_t3(int a, unsigned char b, long c);
 unsigned long k_hash_pair(int a, long b);
@@ -102,6 +108,31 @@ unsigned k_ops(const struct pval* xv, const struct pval* yv)
 unsigned long k_hash_p(const struct pval* x)
 {
     return nitro::lang::hash(mk(x));
+}
+unsigned long k_hash_p_after_change(const struct pval* xv, const struct pval* yv, unsigned long* first)
+{
+    P x = mk(xv);
+    *first = nitro::lang::hash(x);
+    x.a = yv->a;
+    x.b = yv->b;
+    x.c = yv->c;
+    x.s.assign(yv->s, yv->sl);
+    P copy(x); // a copy made after the change is the same value, too
+    return nitro::lang::hash(x) == nitro::lang::hash(copy) ? nitro::lang::hash(x) : ~nitro::lang::hash(x);
+}
+unsigned k_container_eq(const struct pval* xv, const struct pval* yv)
+{
+    P x = mk(xv), y = mk(yv);
+    typename nitro::lang::unordered_set<P>::key_equal se;
+    typename nitro::lang::unordered_map<P, int>::key_equal me;
+    return (se(x, y) ? 1u : 0u) | (me(x, y) ? 2u : 0u);
+}
+unsigned long k_container_hash(const struct pval* xv, unsigned map)
+{
+    P x = mk(xv);
+    if (map)
+        return typename nitro::lang::unordered_map<P, int>::hasher()(x);
+    return typename nitro::lang::unordered_set<P>::hasher()(x);
 }
 unsigned long k_hash_p_wrapper(const struct pval* x)
 {
